@@ -9,6 +9,7 @@
      [codec]   dec (enc w) = Some w               bitcode; `Workbook: PartialEq` on every generated workbook
      [lex_rc]  the character-level lexer           real lexer tokens of every stored text -> model parser = real parser
      [view], [parse_names], [valid_*]              what from_workbook reads of the workbook
+     [cf_eval] evaluate_conditional_formatting      rewrites computed values only; identity without conditional formats (cf_law)
    Findings inherited: the three associative bare pairs 1+(2+3), 1+(2-3), 1&(2&3) (the reloaded tree
    is the left-nested one: [no_bad]; floating-point addition is not associative, so a VALUE can
    change in the last bit: harness class assoc_sum_value), F62 ([lower_stable]), the F04 family
@@ -18,27 +19,36 @@ From IronCalc Require Import Sheet.Persist Sheet.PersistProofs Sheet.PersistValu
 From IronCalc Require Eval.NumOps Eval.Value Eval.Store Eval.StoreProofs Eval.Eval Eval.EvalProofs.
 
 Definition codec_law {W B : Type} (enc : W -> B) (dec : B -> option W) : Prop := forall w, dec (enc w) = Some w.
+(* evaluate_conditional_formatting (last step of from_workbook) rewrites computed values only, and
+   does nothing on a workbook without conditional formats *)
+Definition cf_law {W : Type} (view : W -> wb_view) (cf_eval : W -> W) : Prop :=
+  (forall w, view (cf_eval w) = view w) /\ (forall w, v_has_cf (view w) = false -> cf_eval w = w).
 
 (* load (save m) succeeds exactly when the stored locale and timezone and the requested language
    are valid identifiers (always the case for a workbook the API produced: set_locale /
-   set_timezone validate before they store), never panics, and the stored workbook is IDENTICAL *)
+   set_timezone validate before they store), never panics, and the workbook of the loaded model is
+   the stored one: IDENTICAL when there is no conditional format, otherwise identical in everything
+   [view] shows (formulas, names, sheets, settings) — computed values may have been rewritten by
+   evaluate_conditional_formatting *)
 Theorem C26_workbook :
   forall (W B : Type) (enc : W -> B) (dec : B -> option W), codec_law enc dec ->
-  forall (PN : Type) (view : W -> wb_view) (parse_names : W -> PN) (valid_locale valid_tz valid_lang : text -> bool)
+  forall (PN : Type) (view : W -> wb_view) (parse_names : wb_view -> PN) (cf_eval : W -> W), cf_law view cf_eval ->
+  forall (valid_locale valid_tz valid_lang : text -> bool)
          (lex_rc : text -> list token) (nm : names) (m : model W PN) (lang : text),
-  let load := from_bytes W B dec PN view parse_names valid_locale valid_tz valid_lang lex_rc nm in
+  let load := from_bytes W B dec PN view parse_names cf_eval valid_locale valid_tz valid_lang lex_rc nm in
   let save := to_bytes W B enc PN in
   load (save m) lang <> Panic /\
   ((exists m', load (save m) lang = Ok m') <->
      valid_locale (v_locale (view (m_wb m))) = true /\ valid_tz (v_tz (view (m_wb m))) = true /\ valid_lang lang = true) /\
   (forall m', load (save m) lang = Ok m' ->
-     m_wb m' = m_wb m /\ m_lang m' = lang /\
-     m_parsed m' = parse_formulas lex_rc nm (view (m_wb m)) /\ m_names m' = parse_names (m_wb m)).
+     m_wb m' = cf_eval (m_wb m) /\ view (m_wb m') = view (m_wb m) /\
+     (v_has_cf (view (m_wb m)) = false -> m_wb m' = m_wb m) /\ m_lang m' = lang /\
+     m_parsed m' = parse_formulas lex_rc nm (view (m_wb m)) /\ m_names m' = parse_names (view (m_wb m))).
 Proof.
-  exact (fun W B enc dec H PN view pn vl vt vg lex nm m lang =>
-    conj (load_never_panics W B enc dec PN view pn vl vt vg lex nm H m lang)
-   (conj (load_ok_iff W B enc dec PN view pn vl vt vg lex nm H m lang)
-         (load_save_workbook W B enc dec PN view pn vl vt vg lex nm H m lang))).
+  exact (fun W B enc dec H PN view pn cf Hcf vl vt vg lex nm m lang =>
+    conj (load_never_panics W B enc dec PN view pn cf vl vt vg lex nm H m lang)
+   (conj (load_ok_iff W B enc dec PN view pn cf vl vt vg lex nm H m lang)
+         (load_save_workbook W B enc dec PN view pn cf vl vt vg lex nm H (proj1 Hcf) (proj2 Hcf) m lang))).
 Qed.
 Print Assumptions C26_workbook.
 
@@ -62,46 +72,54 @@ Print Assumptions C26_formulas.
    same parsed formulas *)
 Theorem C26_parsed_formulas :
   forall (W B : Type) (enc : W -> B) (dec : B -> option W), codec_law enc dec ->
-  forall (PN : Type) (view : W -> wb_view) (parse_names : W -> PN) (valid_locale valid_tz valid_lang : text -> bool)
+  forall (PN : Type) (view : W -> wb_view) (parse_names : wb_view -> PN) (cf_eval : W -> W), cf_law view cf_eval ->
+  forall (valid_locale valid_tz valid_lang : text -> bool)
          (lex_rc : text -> list token) (nm : names) (m m' : model W PN) (lang : text),
   consistent W PN view lex_rc nm m ->
-  from_bytes W B dec PN view parse_names valid_locale valid_tz valid_lang lex_rc nm (to_bytes W B enc PN m) lang = Ok m' ->
-  m_wb m' = m_wb m /\ m_parsed m' = m_parsed m.
+  from_bytes W B dec PN view parse_names cf_eval valid_locale valid_tz valid_lang lex_rc nm (to_bytes W B enc PN m) lang = Ok m' ->
+  view (m_wb m') = view (m_wb m) /\ m_parsed m' = m_parsed m.
 Proof.
-  exact (fun W B enc dec H PN view pn vl vt vg lex nm m m' lang Hc Hl =>
-    conj (proj1 (load_save_workbook W B enc dec PN view pn vl vt vg lex nm H m lang m' Hl))
-         (load_save_formulas W B enc dec PN view pn vl vt vg lex nm H m lang m' Hc Hl)).
+  exact (fun W B enc dec H PN view pn cf Hcf vl vt vg lex nm m m' lang Hc Hl =>
+    conj (proj1 (proj2 (load_save_workbook W B enc dec PN view pn cf vl vt vg lex nm H (proj1 Hcf) (proj2 Hcf) m lang m' Hl)))
+         (load_save_formulas W B enc dec PN view pn cf vl vt vg lex nm H (proj1 Hcf) (proj2 Hcf) m lang m' Hc Hl)).
 Qed.
 Print Assumptions C26_parsed_formulas.
 
-(* a loaded model is a fixed point: saving and loading it again gives the very same model
-   (no consistency premise: the second time nothing at all can change) *)
+(* a loaded model is a fixed point in everything stored and parsed: saving and loading it again
+   changes neither the view of the workbook nor the parsed formulas and names (no consistency
+   premise: the second time nothing can change), and gives the very same model when
+   evaluate_conditional_formatting has nothing left to rewrite *)
 Theorem C26_second_load_identical :
   forall (W B : Type) (enc : W -> B) (dec : B -> option W), codec_law enc dec ->
-  forall (PN : Type) (view : W -> wb_view) (parse_names : W -> PN) (valid_locale valid_tz valid_lang : text -> bool)
+  forall (PN : Type) (view : W -> wb_view) (parse_names : wb_view -> PN) (cf_eval : W -> W), cf_law view cf_eval ->
+  forall (valid_locale valid_tz valid_lang : text -> bool)
          (lex_rc : text -> list token) (nm : names) (m m' m'' : model W PN) (lang : text),
-  let load := from_bytes W B dec PN view parse_names valid_locale valid_tz valid_lang lex_rc nm in
+  let load := from_bytes W B dec PN view parse_names cf_eval valid_locale valid_tz valid_lang lex_rc nm in
   let save := to_bytes W B enc PN in
-  load (save m) lang = Ok m' -> load (save m') lang = Ok m'' -> m'' = m'.
+  load (save m) lang = Ok m' -> load (save m') lang = Ok m'' ->
+  view (m_wb m'') = view (m_wb m') /\ m_parsed m'' = m_parsed m' /\ m_names m'' = m_names m' /\ m_lang m'' = m_lang m' /\
+  (cf_eval (m_wb m') = m_wb m' -> m'' = m').
 Proof.
-  exact (fun W B enc dec H PN view pn vl vt vg lex nm m m' m'' lang =>
-    load_save_idempotent W B enc dec PN view pn vl vt vg lex nm H m lang m' m'').
+  exact (fun W B enc dec H PN view pn cf Hcf vl vt vg lex nm m m' m'' lang =>
+    load_save_idempotent W B enc dec PN view pn cf vl vt vg lex nm H (proj1 Hcf) (proj2 Hcf) m lang m' m'').
 Qed.
 Print Assumptions C26_second_load_identical.
 
-(* values: the evaluator's inputs are a function [inputs_of] of the stored workbook and the parsed
-   formulas (the assumption, made explicit; it is the dump the evaluator tie of C05-C08 works on);
-   then by C07 (values_depend_on_inputs_only) the live model and the loaded model compute the same
-   value in every cell, for any two evaluation orders and whatever stale values either carries —
-   on C07's scope: plain cells, acyclic, storable results *)
+(* values: the evaluator's inputs are a function [inputs_of] of the workbook and the parsed
+   formulas, and evaluate_conditional_formatting does not change inputs (the assumptions, made
+   explicit; [inputs_of] is the dump the evaluator tie of C05-C08 works on); then by C07
+   (values_depend_on_inputs_only) the live model and the loaded model compute the same value in
+   every cell, for any two evaluation orders and whatever stale values either carries — on C07's
+   scope: plain cells, acyclic, storable results *)
 Theorem C26_values :
   forall (W B : Type) (enc : W -> B) (dec : B -> option W), codec_law enc dec ->
-  forall (PN : Type) (view : W -> wb_view) (parse_names : W -> PN) (valid_locale valid_tz valid_lang : text -> bool)
-         (lex_rc : text -> list token) (nm : names)
-         (num : Type) (N : NumOps.NumOps num) (inputs_of : W -> list (list ast) -> Value.cref -> Store.content (num:=num))
-         (m m' : model W PN) (lang : text),
+  forall (PN : Type) (view : W -> wb_view) (parse_names : wb_view -> PN) (cf_eval : W -> W), cf_law view cf_eval ->
+  forall (valid_locale valid_tz valid_lang : text -> bool) (lex_rc : text -> list token) (nm : names)
+         (num : Type) (N : NumOps.NumOps num) (inputs_of : W -> list (list ast) -> Value.cref -> Store.content (num:=num)),
+  (forall w p, StoreProofs.same_inputs (inputs_of (cf_eval w) p) (inputs_of w p)) ->
+  forall (m m' : model W PN) (lang : text),
   consistent W PN view lex_rc nm m ->
-  from_bytes W B dec PN view parse_names valid_locale valid_tz valid_lang lex_rc nm (to_bytes W B enc PN m) lang = Ok m' ->
+  from_bytes W B dec PN view parse_names cf_eval valid_locale valid_tz valid_lang lex_rc nm (to_bytes W B enc PN m) lang = Ok m' ->
   let cont0 := inputs_of (m_wb m) (m_parsed m) in
   let cont0' := inputs_of (m_wb m') (m_parsed m') in
   (forall c, StoreProofs.plain_content (cont0 c)) ->
@@ -116,8 +134,8 @@ Theorem C26_values :
   forall c, In c o1 -> In c o2 ->
   Store.value_at (Store.evaluate_in N k o1 st1) c = Store.value_at (Store.evaluate_in N k o2 st2) c.
 Proof.
-  exact (fun W B enc dec H PN view pn vl vt vg lex nm num N inputs_of m m' lang =>
-    load_save_values W B enc dec PN view pn vl vt vg lex nm H num N inputs_of m m' lang).
+  exact (fun W B enc dec H PN view pn cf Hcf vl vt vg lex nm num N inputs_of Hin m m' lang =>
+    load_save_values W B enc dec PN view pn cf vl vt vg lex nm H (proj1 Hcf) (proj2 Hcf) num N inputs_of Hin m m' lang).
 Qed.
 Print Assumptions C26_values.
 
@@ -144,6 +162,6 @@ Print Assumptions C26_literal_stable.
 (* non-vacuity: a workbook with the formulas "1+2" and "-R[0]C[0]%" satisfies [consistent] and loads to itself *)
 Example C26_nonvacuous :
   consistent wb_view unit (fun w => w) Example.lex0 Example.nm0 Example.m0 /\
-  from_bytes wb_view wb_view Some unit (fun w => w) (fun _ => tt) Example.yes Example.yes Example.yes Example.lex0 Example.nm0
+  from_bytes wb_view wb_view Some unit (fun w => w) (fun _ => tt) (fun w => w) Example.yes Example.yes Example.yes Example.lex0 Example.nm0
     (to_bytes wb_view wb_view (fun w => w) unit Example.m0) [101; 110] = Ok Example.m0.
 Proof. exact (conj Example.m0_consistent Example.m0_loads). Qed.
